@@ -435,6 +435,8 @@ class Arr(object):
         where = getattr(self, '_where', None)
         if self.kind == 'i':
             check_int_store(self, value)
+        if isinstance(value, (list, tuple)):
+            value = asarr(list(value))             # a python sequence is converted like numpy does
         full = self._axis_mask(index)
         if full is not None:
             if isinstance(value, Arr) and value.size > 1:
